@@ -88,9 +88,7 @@ Print Assumptions C01_mixed_cmp_partial.
 Theorem C01_lua_mixed_cmp_exact : forall i f, in_i64 i ->
   lua_lt_if i f = exact_lt_if i f /\ lua_le_if i f = exact_le_if i f /\
   lua_lt_fi f i = exact_lt_fi f i /\ lua_le_fi f i = exact_le_fi f i /\ lua_eq_if i f = exact_eq_if i f.
-Proof.
-  intros. repeat split; [apply lua_lt_if_exact|apply lua_le_if_exact|apply lua_lt_fi_exact|apply lua_le_fi_exact|apply lua_eq_if_exact]; assumption.
-Qed.
+Proof. exact lua_mixed_cmp_exact. Qed.
 Print Assumptions C01_lua_mixed_cmp_exact.
 
 (* ---- core 2: numeric for ---- *)
@@ -106,47 +104,65 @@ Theorem C01_fornum_partial : forall a b s, in_i64 a -> in_i64 b -> in_i64 s -> s
 Proof. exact fornum_partial. Qed.
 Print Assumptions C01_fornum_partial.
 
-(* ---- core 3: evaluation order (Order.v).  Full statement: for every expression, state and choice
+(* ---- core 3: evaluation order (Order.v).  [pol] = analyzer_se_policy, the analyzer's two `sideeffect` rules as
+   scraped from analyzer.lua into Gen.v (a call takes the attribute of its arguments; a store through a field,
+   an index or a pointer marks the enclosing function).  Full statement: for every expression, state and choice
    the C compiler may make, the compiled code leaves the same store, trace and value as Lua.  It is
    false on the unchanged tree in four ways. ---- *)
 Theorem C01_order_refuted : ~ order_preserved_full.
 Proof. exact order_refuted. Qed.
 Print Assumptions C01_order_refuted.
 
-Theorem C01_order_refuted_global : exists o, snd (nelua_run fe_w e_global st_w o) <> snd (lua_run fe_w e_global st_w).
+Theorem C01_order_refuted_global : exists o, snd (nelua_run pol fe_w e_global st_w o) <> snd (lua_run fe_w e_global st_w).
 Proof. exact order_refuted_global. Qed.
 Print Assumptions C01_order_refuted_global.
 
-Theorem C01_order_refuted_local : exists o, snd (nelua_run fe_w e_local st_w o) <> snd (lua_run fe_w e_local st_w).
+Theorem C01_order_refuted_local : exists o, snd (nelua_run pol fe_w e_local st_w o) <> snd (lua_run fe_w e_local st_w).
 Proof. exact order_refuted_local. Qed.
 Print Assumptions C01_order_refuted_local.
 
-Theorem C01_order_refuted_args3 : forall o, nelua_run fe_w e_args3 st_w o <> lua_run fe_w e_args3 st_w.
+Theorem C01_order_refuted_args3 : forall o, nelua_run pol fe_w e_args3 st_w o <> lua_run fe_w e_args3 st_w.
 Proof. exact order_refuted_args3. Qed.
 Print Assumptions C01_order_refuted_args3.
 
-(* repaired in /repo 7b4cb3f: a call inherits the side effects of its arguments *)
-Theorem C01_order_wrapper_sequenced : forall o, nelua_run fe_w e_wrapper st_w o = lua_run fe_w e_wrapper st_w.
-Proof. exact order_wrapper_sequenced. Qed.
+(* the two repaired analyzer rules, for EVERY policy: each former witness agrees with Lua under every C evaluation
+   order exactly when the corresponding rule is in force (a revert of /repo 7b4cb3f or 9e49985 flips the scraped
+   boolean and breaks the three theorems after this one) *)
+Theorem C01_order_se_policy_iff : forall p,
+  (p_args_propagate p = true <-> (forall o, nelua_run p fe_w e_wrapper st_w o = lua_run fe_w e_wrapper st_w)) /\
+  (p_indirect_marks p = true <-> (forall o, nelua_run p fe_w e_unflagged st_w o = lua_run fe_w e_unflagged st_w)).
+Proof. exact (fun p => conj (args_propagate_iff p) (indirect_marks_iff p)). Qed.
+Print Assumptions C01_order_se_policy_iff.
+
+(* id(f()) + h(): repaired in /repo 7b4cb3f (a call inherits the side effects of its arguments) *)
+Theorem C01_order_wrapper_sequenced : forall o, nelua_run pol fe_w e_wrapper st_w o = lua_run fe_w e_wrapper st_w.
+Proof. exact (proj1 (args_propagate_iff pol) (proj1 se_policy_facts)). Qed.
 Print Assumptions C01_order_wrapper_sequenced.
 
-Theorem C01_order_wrapped_args_sequenced : forall st o, nelua_run fe_ex e_wrapped_args st o = lua_run fe_ex e_wrapped_args st.
-Proof. exact wrapped_args_sequenced. Qed.
+(* g(h(f(1)), h(f(2))) with h free of side effects *)
+Theorem C01_order_wrapped_args_sequenced : forall st o, nelua_run pol fe_ex e_wrapped_args st o = lua_run fe_ex e_wrapped_args st.
+Proof. exact (fun st o => wrapped_args_sequenced pol st o (proj1 se_policy_facts)). Qed.
 Print Assumptions C01_order_wrapped_args_sequenced.
 
-(* repaired in /repo 9e49985: a callee that only stores through a field is marked, its calls are sequenced *)
-Theorem C01_order_indirect_store_sequenced : forall o, nelua_run fe_w e_unflagged st_w o = lua_run fe_w e_unflagged st_w.
-Proof. exact order_indirect_store_sequenced. Qed.
+(* show(bump(), bump()): repaired in /repo 9e49985 (a callee that only stores through a field is marked) *)
+Theorem C01_order_indirect_store_sequenced : forall o, nelua_run pol fe_w e_unflagged st_w o = lua_run fe_w e_unflagged st_w.
+Proof. exact (proj1 (indirect_marks_iff pol) (proj2 se_policy_facts)). Qed.
 Print Assumptions C01_order_indirect_store_sequenced.
 
-(* the strongest true restriction: when no function writes a variable (their effects are events and values
-   only), the compiled expression leaves the same store, trace and value as Lua for EVERY expression and EVERY
-   order of evaluation the C compiler may choose - plain C operators/calls and both kinds of
-   statement-expression temporaries (the extra hypothesis on unmarked callees is gone since /repo 7b4cb3f) *)
+(* the positive statement, still restricted: when NO function writes a variable (the store is never written;
+   the effects are events and values only), the compiled expression leaves the same trace of events and the
+   same value as Lua for EVERY expression and EVERY order of evaluation the C compiler may choose - plain C
+   operators/calls and both kinds of statement-expression temporaries.  It needs the analyzer rule
+   p_args_propagate (discharged by the fact lemma over the scraped policy) and is false without it. *)
 Theorem C01_order_preserved_partial : forall fe e st o,
-  no_writes fe -> nelua_run fe e st o = lua_run fe e st.
-Proof. exact order_preserved_partial. Qed.
+  no_writes fe -> nelua_run pol fe e st o = lua_run fe e st.
+Proof. exact (fun fe e st o => order_preserved_partial pol fe e st o (proj1 se_policy_facts)). Qed.
 Print Assumptions C01_order_preserved_partial.
+
+Theorem C01_order_args_rule_needed : forall p, p_args_propagate p = false ->
+  no_writes fe_ex /\ exists o, nelua_run p fe_ex e_wrapped_args ([3], []) o <> lua_run fe_ex e_wrapped_args ([3], []).
+Proof. exact args_policy_needed. Qed.
+Print Assumptions C01_order_args_rule_needed.
 
 (* ---- order of the values of a multi-variable declaration (VarDecl.v) ----
    full strength: the values of `local v1, .., vn = e1, .., em` are evaluated left to right, as Lua does, in every
